@@ -17,7 +17,7 @@
     expandi <iforest>                                 → flat            iforest: ( id:keyhex child … ) …, the same id = the same object
     temp <inode> <n>                                  → <inode>         to_temporary with new object ids n, n+1, …
     write <inode> <n> <path> <inode value>            → E <inode> T <inode> / IndexError   seqs.update(temp.attrs, path, value, 'attrs') seen on the entry and the copy
-    t.inv <module> <keyhex=rank,…|->                  → Loaded=<bool> SymOK=<bool>   the hypotheses of C14.order / C14.rt, evaluated by their Lean definitions
+    t.inv <module> <keyhex=rank,…|->                  → Loaded=<bool> SymOK=<bool> ViaOK=<bool>   the hypotheses of C14.order / C14.rt / C14.rt_exact, evaluated by their Lean definitions
     dsn.join <delim char hex> <part;part;…>           → hex             DSN.join
     dsn.full <dsn> <elem;elem;…>                      → hex             ModuleDSN.full_joined
     dsn.parsed <dsn>                                  → hex hex         ModuleDSN.parsed
@@ -26,6 +26,7 @@
 import Tranp.Driver.Common
 import Tranp.Model.SymbolJson
 import Tranp.Lemmas.SymbolJson
+import Tranp.Lemmas.SymbolJsonExact
 
 namespace Tranp.Driver.SymJson
 open Tranp Tranp.SymbolJson Tranp.Driver
@@ -267,7 +268,8 @@ def step (st : St) : List String → St × String
         let W := st.world
         let l := decide (Loaded W st.tbl m rank)
         let o := st.tbl.items.all (fun ks => modOf ks.1 != m || symOKb W st.tbl ks.2)
-        (st, s!"Loaded={l} SymOK={o}")
+        let v := st.tbl.items.all (fun ks => modOf ks.1 != m || viaOKb W st.tbl ks.2)
+        (st, s!"Loaded={l} SymOK={o} ViaOK={v}")
       | none => (st, "bad-op")
     | none => (st, "bad-op")
   | ["dsn.join", d, parts] =>
